@@ -14,6 +14,7 @@ func Shrink(p *Prop, vals []uint32, orig Outcome, tier Tier, budget int) ([]uint
 	execs := 0
 	var bestOut Outcome
 	var bestRun *simrt.Run
+	var lastMarks []int // unit starts of the most recent execution with the wanted class
 	try := func(c []uint32) ([]uint32, bool) {
 		if execs >= budget {
 			return nil, false
@@ -29,9 +30,11 @@ func Shrink(p *Prop, vals []uint32, orig Outcome, tier Tier, budget int) ([]uint
 			n = n[:len(n)-1]
 		}
 		bestOut, bestRun = out, r
+		lastMarks = r.Tape.Marks
 		return n, true
 	}
 	cur, ok := try(vals)
+	curMarks := lastMarks
 	if !ok {
 		// does not even replay: return as is (the driver will flag this)
 		out, r := ExecTape(p, vals, tier)
@@ -51,12 +54,33 @@ func Shrink(p *Prop, vals []uint32, orig Outcome, tier Tier, budget int) ([]uint
 	improved := true
 	for improved && execs < budget {
 		improved = false
+		// 0. delete whole structural units (one operation, rule, fact, fault ...):
+		// the workloads mark where a unit starts, a unit ends at the next mark.
+		// The units behind a deleted one move up; the run draws zeros (the
+		// simplest unit) for what is then missing at the end.
+		for k := len(curMarks) - 1; k >= 0 && execs < budget; k-- {
+			if k >= len(curMarks) {
+				continue
+			}
+			lo, hi := curMarks[k], len(cur)
+			if k+1 < len(curMarks) {
+				hi = curMarks[k+1]
+			}
+			if lo >= len(cur) || hi > len(cur) || lo >= hi {
+				continue
+			}
+			c := append(append([]uint32{}, cur[:lo]...), cur[hi:]...)
+			if n, ok := try(c); ok && less(n, cur) {
+				cur, curMarks = n, lastMarks
+				improved = true
+			}
+		}
 		// 1. delete chunks
 		for size := len(cur) / 2; size >= 1; size /= 2 {
 			for i := 0; i+size <= len(cur); {
 				c := append(append([]uint32{}, cur[:i]...), cur[i+size:]...)
 				if n, ok := try(c); ok && less(n, cur) {
-					cur = n
+					cur, curMarks = n, lastMarks
 					improved = true
 				} else {
 					i += size
@@ -83,7 +107,7 @@ func Shrink(p *Prop, vals []uint32, orig Outcome, tier Tier, budget int) ([]uint
 					c[j] = 0
 				}
 				if n, ok := try(c); ok && less(n, cur) {
-					cur = n
+					cur, curMarks = n, lastMarks
 					improved = true
 				}
 				if execs >= budget {
@@ -103,7 +127,7 @@ func Shrink(p *Prop, vals []uint32, orig Outcome, tier Tier, budget int) ([]uint
 				c := append([]uint32{}, cur...)
 				c[i] = nv
 				if n, ok := try(c); ok && less(n, cur) {
-					cur = n
+					cur, curMarks = n, lastMarks
 					improved = true
 					break
 				}
